@@ -499,6 +499,7 @@ def run(U, rep, tier):
   r3_5(U, rep, tier)
   r3_5b(U, rep, tier)
   r3_7(U, rep)
+  r3_8(U, rep, tier)
 
 
 def r3_7(U, rep):
@@ -511,3 +512,48 @@ def r3_7(U, rep):
   from braxlint.props import c08
   from braxlint.props.c16 import _Relabel
   c08.r8_2(U, _Relabel(rep, 'R3.7'), entries=('init',))
+
+
+def r3_8(U, rep, tier):
+  """R3.8 [interpreter event, RI]: "finite for every mix of hinge / slide stacks": kinematics.inverse -- the read-back at the
+  end of every spring / positional step -- is executed for EVERY stack pattern of 1-3 hinge / slide joints (orthonormal axes
+  by construction, generic symbolic joint transform and motion), and no arctan2 may be evaluated at the origin: its value
+  there is 0 by convention but its derivative is 0/0, and the NaN survives every later mask (0 * NaN).  The arguments are
+  identically zero only when the code hands a zero vector where a frame axis is expected (an absent rotational part
+  completed with zeros instead of the identity frame), which no input can avoid."""
+  import itertools
+  from braxlint import refkin, symsys
+  from braxlint.avnlib import M as Mo, T as Tr
+  KIN = 'brax.kinematics'
+  f = U.func(KIN + '.inverse')
+  pats = [''.join(p) for n in (1, 2, 3) for p in itertools.product('hs', repeat=n)]
+  for pat in pats:
+    n = len(pat)
+    ev = None
+    for t in range(40):
+      avn.field_mode(1700 + t, decide=lambda nm: 1 if nm.kind == 'any' else None)
+      avn.FIELD['sqrt_axiom'] = 'soft'
+      try:
+        I = new_interp(U.repo)
+        qv = refkin.unit_quat('tq')
+        R = [refkin.rot(np.array([Rat.lift(int(i == k)) for i in range(3)], dtype=object), qv) for k in range(3)]
+        z = np.array([Rat.lift(0)] * 3, dtype=object)
+        ang = np.stack([R[k] if c == 'h' else z for k, c in enumerate(pat)])
+        vel = np.stack([R[k] if c == 's' else z for k, c in enumerate(pat)])
+        sysd = symsys.system(str(n), (-1,), nq=n, nv=n)
+        sysd.f['dof'] = Struct('DoF', {'motion': Struct('Motion', {'ang': ang, 'vel': vel}, home='brax.base'), 'limit': None})
+        del avn.SINGULAR[:]
+        I.apply(fn(KIN, 'inverse'), [sysd, Tr('j', (1,)), Mo('jd', (1,))], {})
+        ev = sorted(set(avn.SINGULAR))
+        break
+      except avn.NonResidue:
+        continue
+      finally:
+        avn.exact_mode()
+    if ev is None:
+      raise AnalysisError('R3.8: no admissible random point for the stack %s' % pat)
+    kinds = ' - '.join('hinge' if c == 'h' else 'slide' for c in pat)
+    rep.check(not ev, 'R3.8', 'kinematics.inverse evaluates no arctan2 at the origin [stack %s]' % kinds,
+              lambda ev=ev: 'for a %s stack the joint read-back evaluates %s (in %s): the derivative there is 0/0, so every '
+              'gradient through a spring / positional step of such a model is NaN' % (kinds, ev[0][0], ' <- '.join(reversed(ev[0][1]))),
+              where=f.where(), construct='stack pattern %s, orthonormal axes, generic j / jd' % pat)
